@@ -242,6 +242,7 @@ package file
 //@ func (*Container).Commit
 //@   property C10 C01
 //@   safety
+//@   ghostset swapsStarted = swapsStarted + 1
 //@   requires containerWf(c) && (h != nil ==> handlerWf(h))
 //@   requires h != nil && has(c.m, strings.ToUpper(h.path)) ==> c.m[strings.ToUpper(h.path)] == h &&
 //@       (!h.closed && h.openType == ForUpdate ==> h.tempFile != nil && fs[h.path] != 0 && fs[tempPathOf(h.path)] != 0)
